@@ -292,6 +292,9 @@ M("c12_center_filler_sign", "C12", "ak/ppobj.py",
 M("c12_break_by_compares_first_field_only", "C12", "ak/ppobj.py",
   "                prev_break_by_values != cur_break_by_values\n",
   "                prev_break_by_values[:1] != cur_break_by_values[:1]\n")
+M("c01_revert_span_empty_lines", "C01", "ak/llparser.py",
+  "            while col < len(text_line) or span_line_pending:",
+  "            while col < len(text_line):")
 M("c06_registered_type_ignores_remote_name", "C06", "ak/ghist.py",
   "        return repo_class(repo_id, repo_address, remote_name)",
   "        return repo_class(repo_id, repo_address, 'origin')")
